@@ -149,6 +149,12 @@ func (p sessProp) Oracle(inp interface{}, obs Sx) (string, string) {
 		if want && enabledRes != "" {
 			expID = enabledIDOf(c)
 		}
+		noSM := want && !smOfferedAfterAuth(c)
+		if noSM {
+			// a session was bound on a stream without stream management: whatever was held from an earlier
+			// session is gone (it must not be presented again, and this session's stanzas are not counted into it)
+			expID, expInb = "", 0
+		}
 		if want && enabledRes != "" {
 			if granted, err := strconv.ParseBool(enabledRes); err != nil || !granted {
 				smEnable = false // the server did not grant resumption: the client stops asking for stream management
@@ -160,6 +166,9 @@ func (p sessProp) Oracle(inp interface{}, obs Sx) (string, string) {
 		// ---- C11: outcome of a resumption attempt
 		id := string(bytesOf(snap.L[1]))
 		jid := string(bytesOf(snap.L[4]))
+		if noSM && ok && id != "" {
+			return fmt.Sprintf("conn %d: a session was bound on a stream without stream management, yet the client still holds the id %q of an earlier session (and counts this session's stanzas into it)", ci, id), "stale-kept-no-sm"
+		}
 		if sawResume {
 			rep := resumeReply(c, prevID)
 			switch {
@@ -207,9 +216,9 @@ func (p sessProp) Oracle(inp interface{}, obs Sx) (string, string) {
 					}
 				}
 				expInb = base + int64(c.Traffic)
-			} else {
-				// a connection on which stream management was not negotiated at all: the client
-				// keeps whatever SM state it holds and keeps counting (odd server; DESIGN.md C11)
+			} else if !noSM {
+				// stream management offered but not enabled on this connection (the client does not ask for it):
+				// no managed session exists, nothing is reported to anybody
 				expInb += int64(c.Traffic)
 			}
 		}
@@ -234,6 +243,18 @@ func min64(a int64, b int64) int64 {
 }
 
 // enabledIDOf: the id of the last <enabled/> in the script.
+// smOfferedAfterAuth: the features element that carries <bind/> (the one after authentication) offers <sm/>.
+func smOfferedAfterAuth(c sessConn) bool {
+	for _, g := range c.Groups {
+		for _, it := range g {
+			if it.T == "features" && it.Bind {
+				return it.SM
+			}
+		}
+	}
+	return false
+}
+
 func enabledIDOf(c sessConn) string {
 	id := ""
 	for _, g := range c.Groups {
@@ -743,10 +764,10 @@ func genC11(r *rand.Rand, tier string) []interface{} {
 						conns = append(conns, sessConn{Groups: g, Traffic: r.Intn(4)})
 						// what the client should hold afterwards (generator's expectation only steers ids)
 						switch {
-						case !sh.smOffer || cur == "":
-							if sh.smOffer {
-								cur = newID
-							}
+						case !sh.smOffer:
+							cur = "" // no stream management on this stream: a new session is bound, the held state is discarded
+						case cur == "":
+							cur = newID
 						case it.T == "resumed" && it.ID == cur:
 						case it.T == "failed":
 							cur = newID // "" when the fallback bind failed: nothing to resume next time
@@ -785,6 +806,18 @@ func genC09sess(r *rand.Rand, tier string) []interface{} {
 		g, _ := goodConn(in, sh, "", "", held, res)
 		conns := []sessConn{{Groups: g, Traffic: r.Intn(9)}}
 		for k := r.Intn(4); k > 0; k-- {
+			if r.Intn(4) == 0 {
+				// a stream WITHOUT stream management in between (the server does not offer it): a plain session is
+				// bound and receives stanzas; they must not be counted into the session held from before, which is
+				// gone: the next managed stream starts a new session, counting from zero
+				g1, _ := goodConn(in, shape{smOffer: false}, "", "", "", "")
+				conns = append(conns, sessConn{Groups: g1, Traffic: 1 + r.Intn(6)})
+				newHeld := fmt.Sprintf("%s-u%d", held, k)
+				g2, _ := goodConn(in, shape{smOffer: true}, "", "", newHeld, "true")
+				conns = append(conns, sessConn{Groups: g2, Traffic: r.Intn(7)})
+				held = newHeld
+				continue
+			}
 			if r.Intn(3) == 0 {
 				// resumption refused: bind, a new <enabled/> with a new id, counting starts again
 				newHeld := fmt.Sprintf("%s-n%d", held, k)
